@@ -24,6 +24,13 @@ type SQLEvent struct {
 	Before    string
 	After     string
 	Fault     string
+	CallerGone bool // the caller's context had already ended when the statement was delivered
+	It         *iterRec // state-handler invocation of Src that was open when the statement was issued (nil: none)
+}
+
+// toldOK: the issuing process was told that the statement succeeded
+func (e *SQLEvent) toldOK() bool {
+	return e.Applied && e.Err == "" && e.Fault != "lost" && !e.CallerGone
 }
 
 func srcHostOf(src string) string {
@@ -121,6 +128,10 @@ func (s *Sim) scheduleCall(c *call) {
 	if !s.srcAlive(c.src) {
 		return // dead process: its calls go nowhere and are never answered
 	}
+	s.drainHooks()
+	if it := s.mon.iters[c.src]; it != nil && it.open {
+		c.it = it
+	}
 	lat := s.baseLatency(c.key)
 	if c.kind == callZKDial {
 		s.after(lat, "zkdial", func() { s.deliverZKDial(c) })
@@ -189,7 +200,10 @@ func (s *Sim) deliverSQL(c *call, flt string) {
 		}
 	}()
 	s.stats.SQLCalls++
-	ev := &SQLEvent{Seq: s.evSeq, T: s.now(), Src: c.src, Dst: c.dst, Kind: queryKind(c.query), Query: c.query, Args: c.args, Mutating: isMutating(c.query), Fault: flt}
+	ev := &SQLEvent{Seq: s.evSeq, T: s.now(), Src: c.src, Dst: c.dst, Kind: queryKind(c.query), Query: c.query, Args: c.args, Mutating: isMutating(c.query), Fault: flt, It: c.it}
+	if c.ctx != nil && c.ctx.Err() != nil {
+		ev.CallerGone = true
+	}
 	srcHost := srcHostOf(c.src)
 	fail := func(err error) {
 		ev.Err = err.Error()
